@@ -31,7 +31,7 @@ CHECKS = {
         text="Every text the independent recogniser classifies as outside the dialect (RFC 8259 plus the four permitted leniencies, read "
              "generously) must be rejected by every entry point with an empty allocation ledger; strict texts must be accepted. Inputs: one "
              "generator per must-reject class of the statement, single-edit corruptions, ALL token sequences up to length 5/7 (exhaustive to "
-             "that bound), coverage-guided fuzzing, nesting to 10^6. Exploration (token space exhaustive to the bound).",
+             "that bound), coverage-guided fuzzing, nesting to 10^6. Exploration (token space exhaustive to the bound). Dead stack below every parse is filled with a drawn byte value (digits), so nothing depends on stale scratch contents.",
         note="Trusted: native/dialect.c (written from the RFC, cross-checked against Python json in C05), ledger. Lenient/undecided texts get no verdict.",
         ref="3 C03"),
     "C04": dict(
@@ -48,7 +48,7 @@ CHECKS = {
         technique="property-based testing (Hypothesis) with two independent strict parsers (dialect recogniser, Python json) and a metamorphic formatted/unformatted relation",
         text="Every printed text must be classified STRICT by the recogniser and accepted by Python's strict json, decode to the model value "
              "(non-finite -> null), agree across all print variants/prebuffers/allocators, satisfy strip(formatted) == unformatted, and "
-             "print int-range integers as plain decimal. Exploration.",
+             "print int-range integers as plain decimal. Exploration. Also objects with a name-less member (no verdict unless printed).",
         note="Trusted: Python json as reference decoder. Locale other than C cannot be exercised in this sandbox.",
         ref="3 C05"),
     "C06": dict(
@@ -65,7 +65,7 @@ CHECKS = {
         text="C06 programs extended with parse/print/compare/minify/duplicate, references, constant keys in read-only pages, inter-container moves "
              "and aliasing key arguments, run under custom hooks and under the default allocator (seen through --wrap); final deletion must "
              "empty the ledger with no foreign/double/cross free and no sanitizer report, and every live tree must equal the model after every "
-             "step (so releasing a reference never changes its target). Exploration over histories.",
+             "step (so releasing a reference never changes its target). Exploration over histories. Utility calls inside the histories run on documents with constant keys and on documents holding references (members replaced, removed, copied, moved - never edited through), with case-flipped moves of a value into itself; references filed under the referenced item's own key pointer.",
         note="Trusted: ledger allocator, ASan, page protection. LeakSanitizer is off inside the Python host.",
         ref="3 C07"),
     "C08": dict(
@@ -99,7 +99,7 @@ CHECKS = {
              "links and reference bits, pointer-disjointness from every live tree, shared constant keys; a second generated edit/delete program "
              "then runs with source and copy compared to the model after every step. Spines of LIMIT-1..LIMIT+3 containers (with and without "
              "siblings) and three cyclic shapes must be accepted/refused as stated without leaks or source modification; containers of "
-             "10^4..4*10^5 items must be copied completely and independently. Exploration.",
+             "10^4..4*10^5 items must be copied completely and independently. Exploration. Also reference containers that share only the tail of another list.",
         note="N = CJSON_CIRCULAR_LIMIT+1 containers gets no verdict (statement ambiguous by one). Trusted: model, ledger, ASan.",
         ref="3 C11"),
     "C12": dict(
@@ -123,7 +123,7 @@ CHECKS = {
         text="Histories of 1-3 segments, each under one of five hook configurations (default, both custom, only malloc_fn, only free_fn, NULL "
              "members; custom->default resets included), run C07 programs extended with cJSON_Utils calls and all print variants; per "
              "configuration the counters of the hook side and of the --wrap'ped libc side must show that every request/release went where the "
-             "property says, realloc is unused once a hook is custom, nothing foreign is released and the ledger ends empty. Exploration.",
+             "property says, realloc is unused once a hook is custom, nothing foreign is released and the ledger ends empty. Exploration. Utility calls also on documents with constant keys (document-derived patches) and on documents whose members are references.",
         note="Trusted: --wrap sees every allocator reference of cJSON.c/cJSON_Utils.c in the test build; free_fn(NULL) counts as a legal no-op.",
         ref="3 C14"),
     "C15": dict(
@@ -132,7 +132,7 @@ CHECKS = {
              "pointers, one-edit corruptions (digits/letters/sign/leading zero/escape swaps/2^64+k/case flips) and free strings over the "
              "pointer alphabet, EVERY single-byte token and a third of all two-byte tokens on arrays of up to 260 elements, each lookup under "
              "errno 0 / ERANGE / EINVAL, on documents with awkward keys; chains of 998..3000 levels; FindPointerFromObjectTo is checked for every "
-             "(container, node) pair of each document: exact escaped text, inverse, allocator. Exploration.",
+             "(container, node) pair of each document: exact escaped text, inverse, allocator. Exploration. Also constant keys that are the very memory of the pointer string, and reference containers over stand-alone items.",
         note="Trusted: verif/rfc.py (validated on the 132 conformance cases shipped with the repository). Keys distinct per object.",
         ref="3 C15"),
     "C16": dict(
@@ -142,7 +142,7 @@ CHECKS = {
         text="For generated (document, patch) pairs - valid operations at drawn locations and 18 failure classes, drawn against the evolving "
              "reference state - the status must be 0 exactly when the Python RFC 6902 evaluator succeeds and the document must then equal its "
              "result; for arbitrary JSON values as patch (incl. grafted junk, invalid pointers, fuzzed texts) nothing may crash or leak and the "
-             "document must stay structurally sound. Exploration.",
+             "document must stay structurally sound. Exploration. Also documents with a borrowed (reference) member that the patch copies and then edits in the copy; the owner's tree must stay unchanged.",
         note="Trusted: verif/rfc.py. 'remove' of the whole document is excluded from conformance (left open by the property).",
         ref="3 C16"),
     "C17": dict(
@@ -179,7 +179,7 @@ CHECKS = {
              "interleaved in a generated order (schedule owned by the harness at call granularity). Any report other than a data race on the "
              "documented global error position (located by behaviour, not by name), or any digest differing from the solo run, is a violation. "
              "Exploration over programs; concurrent schedules are whatever the OS produces (race detection is happens-before based, so it does not "
-             "need the bad interleaving).",
+             "need the bad interleaving). In half of the cases the threads' text buffers are adjacent slices of one block (a read at buffer+length is a reported race); texts cut in the middle of a token.",
         note="The harness owns the schedule only at call granularity (interleaved rounds); inside calls only instrumented code is observed and race-free but order-dependent defects are visible only to the differential oracle. Allocation failures inside cJSON_Utils calls are not injected (the library does not promise to survive them), so shared state that is written only on such a path is out of reach.",
         ref="3 C20"),
 }
